@@ -2,6 +2,7 @@ import Ymq.Props.C18
 import Ymq.Props.C18C19
 import Ymq.Props.C18Forms
 import Ymq.Props.C18Legendre
+import Ymq.Props.C18Group
 #print axioms Ymq.C18.b_plus_unique
 #print axioms Ymq.C18.parity_exactly_one
 #print axioms Ymq.C18.bPlus_spec_odd
@@ -45,3 +46,8 @@ import Ymq.Props.C18Legendre
 #print axioms Ymq.C18.legendre_large_prime_panics
 #print axioms Ymq.C18.legendre_panics_small_moduli
 #print axioms Ymq.C18.legendre_composite_debug_assert
+#print axioms Ymq.C18.xgcd_correct
+#print axioms Ymq.C18.compose_raw_identity
+#print axioms Ymq.C18.compose_is_composition
+#print axioms Ymq.C18.compose_dirichlet
+#print axioms Ymq.C18.compose_concordant
